@@ -81,7 +81,7 @@ def run(chk):
             tasks.append((e2, argv, cmds))
     def do(t):
         op, argv, cmds = t
-        return (RecJob(op["id"], op), repl.record(exe, argv, cmds, op))
+        return (RecJob(op["id"], op), repl.record(exe, argv, cmds, op, views=True))
     with cf.ThreadPoolExecutor(max_workers=12) as ex:
         recorded = list(ex.map(do, tasks))
     divs = chk.validate_recorded("Trace_Session", recorded, "c12")
